@@ -130,10 +130,18 @@ def run_check(pid, tier, seed, replay=None):
         evaluations = len(cases)
         nontrivial = getattr(spec, "nontrivial", lambda c, m: True)
         judge = getattr(spec, "judge", None)
+        inspect = getattr(spec, "inspect", None)   # implementation-side predicate evaluated on every agreeing case
         for c, m in zip(cases, outs):
             tags[c.tag] = tags.get(c.tag, 0) + 1
             if nontrivial(c, m):
                 distinct.add(c.key())
+            if inspect is not None and m == c.out:
+                why = inspect(c, m)
+                if why:
+                    disagreements += 1
+                    if disagreements <= 3:
+                        violations.append(Violation("%s [fid %s, tag %s]" % (why, c.fid, c.tag), case=c, model_out=m,
+                                                    found_input=True))
             if m != c.out:
                 disagreements += 1
                 if disagreements <= 3:
